@@ -657,6 +657,15 @@ pub mod demux {
             .map(view)
     }
 
+    /// The Debug text of the connection meta `TlsDemux::select` returns (what the endpoint logs)
+    pub fn select_debug(ctx: &Ctx, alpn: &[Vec<u8>], sni: &str) -> Result<String, String> {
+        verif_hooks_codec::tls_demux(&ctx.0)
+            .read()
+            .unwrap()
+            .select(alpn.iter().map(Vec::as_slice), sni.to_string())
+            .map(|m| format!("{:?}", m))
+    }
+
     /// `Core::reload_tls_hosts_settings`
     pub fn reload(ctx: &Ctx, hosts: TlsHostsSettings) -> bool {
         verif_hooks_codec::reload(&ctx.0, hosts).is_ok()
